@@ -3,13 +3,13 @@
 # store it under seeded/<name>/ and run the property's check against it.
 ID=$1; NAME=$2
 cd /verif
-SEED_ROOT=/tmp/seed2 tools/adopt_seed.sh "$ID" "$NAME" 2>&1 | grep -v conda
+SEED_ROOT=${SEED_ROOT:-/tmp/seed2} tools/adopt_seed.sh "$ID" "$NAME" 2>&1 | grep -v conda
 python3 - "$ID" "$NAME" <<'PY'
 import json, sys, os
 pid, name = sys.argv[1:3]
 d = f"/verif/seeded/{name}"
 a = json.load(open(os.path.join(d, "meta.agent.json")))
-meta = {"property": pid, "breaks": a.get("summary", ""), "needs_to_manifest": a.get("needs", ""), "origin": "fresh sub-agent (round 2) given only the property text, a hint which mechanism NOT to reuse, and a scratch worktree",
+meta = {"property": pid, "breaks": a.get("summary", ""), "needs_to_manifest": a.get("needs", ""), "origin": "fresh sub-agent (round " + os.environ.get("ROUND", "2") + ") given only the property text, a hint which mechanisms NOT to reuse, and a scratch worktree",
         "confirmed_by_me": "tools/adopt2.sh: fresh scratch worktree of /repo HEAD; demo.py exit codes without/with patch.diff and tools/baseline.sh with the patch (see adopt log)",
         "files": a.get("files", [])}
 json.dump(meta, open(os.path.join(d, "meta.json"), "w"), indent=1)
